@@ -10,6 +10,9 @@ CONSTANTS
   MaxRounds = 1
   FixVoidSrc = TRUE
   ArmLate = {}
+  RegCtxs = {"plain"}
+  ResCtxs = {"plain", "local"}
+  SkipUnwinding = {}
   ArgsByRef = FALSE
 INVARIANTS TypeOK CallbackOnce RightOutcome HelperFreedOnce ConvertedValueOrException PublishedResumable ArgsAsPassed NoStuckState
 PROPERTIES FreedByCompletion AllComplete
